@@ -9,7 +9,7 @@ checks, na = [], []
 for p in props:
     pid = p['id']
     info = INFO.get(pid, {})
-    if os.path.exists(os.path.join(here, 'harness', 'src', 'bin', pid.lower() + '.rs')) and info.get('claimed', True):
+    if os.path.exists(os.path.join(here, 'harness', 'src', 'bin', pid.lower() + '.rs')) and pid in INFO.get('_claimed', []):
         checks.append({
             'property_id': pid,
             'quick_cmd': './check %s quick' % pid,
